@@ -27,12 +27,17 @@ macro_rules! dispatch {
             "C03" => $f::<props::c03::C03>($($arg),*),
             "C04" => $f::<props::c04::C04>($($arg),*),
             "C05" => $f::<props::c05::C05>($($arg),*),
+            "C06" => $f::<props::c06::C06>($($arg),*),
+            "C07" => $f::<props::c07::C07>($($arg),*),
             "C08" => $f::<props::c08::C08>($($arg),*),
             "C09" => $f::<props::c09::C09>($($arg),*),
             "C12" => $f::<props::c12::C12>($($arg),*),
             "C13" => $f::<props::c13::C13>($($arg),*),
             "C15" => $f::<props::c15::C15>($($arg),*),
+            "C16" => $f::<props::c16::C16>($($arg),*),
             "C17" => $f::<props::c17::C17>($($arg),*),
+            "C18" => $f::<props::c18::C18>($($arg),*),
+            "C19" => $f::<props::c19::C19>($($arg),*),
             other => {
                 eprintln!("unknown property {other}");
                 exit(2)
